@@ -6,14 +6,25 @@ mod exact;
 mod c11;
 mod c12;
 mod c13;
+mod reuse;
 
 fn main() {
     vx_core::cli::main(
         |prop, ctx, rep| {
             match prop {
                 "C11" => c11::run(ctx, rep),
-                "C12" => c12::run(ctx, rep),
-                "C13" => c13::run(ctx, rep),
+                "C12" => {
+                    c12::run(ctx, rep);
+                    if ctx.wants("reuse") {
+                        reuse::run("C12", ctx, rep);
+                    }
+                }
+                "C13" => {
+                    c13::run(ctx, rep);
+                    if ctx.wants("reuse") {
+                        reuse::run("C13", ctx, rep);
+                    }
+                }
                 _ => return false,
             }
             true
@@ -21,7 +32,9 @@ fn main() {
         |prop, ctx, rep, case| {
             match prop {
                 "C11" => c11::replay(ctx, rep, case),
+                "C12" if case["kind"].as_str() == Some("reuse") => reuse::replay("C12", rep, case),
                 "C12" => c12::replay(ctx, rep, case),
+                "C13" if case["kind"].as_str() == Some("reuse") => reuse::replay("C13", rep, case),
                 "C13" => c13::replay(ctx, rep, case),
                 _ => return false,
             }
